@@ -6,6 +6,7 @@ Functions under contract (real ASTs, re-read every run):
   metacommands.byte/word/dword/blkb/blkw/even/odd/align/ascii_impl/ascii_/asciz
   compiler.Compiler.compile_word_list (+fn)
 """
+import os
 import z3
 from contracts.common import *  # noqa
 from contracts import common
@@ -516,8 +517,131 @@ result = out
 
 
 
+# ---- run-time check: seeded random sequences of data directives at every address parity, at top level and as '.repeat' bodies --------------
+def _rac_ref(stmts, base, copies):
+    """reference emitter written from the property statement; None = the program must be refused (word data at an odd address)"""
+    addr, out = base, b""
+    for _ in range(copies):
+        for st in stmts:
+            k = st[0]
+            if k == "byte":
+                b = bytes(v % 256 for v in st[1])
+            elif k == "word":
+                if addr % 2:
+                    return None
+                b = b"".join((v % 65536).to_bytes(2, "little") for v in st[1])
+            elif k == "dword":
+                if addr % 2:
+                    return None
+                b = b"".join(((v % 2 ** 32) >> 16).to_bytes(2, "little") + ((v % 2 ** 32) & 0xFFFF).to_bytes(2, "little") for v in st[1])
+            elif k == "even":
+                b = b"\0" * (addr % 2)
+            elif k == "odd":
+                b = b"\0" * (1 - addr % 2)
+            elif k == "align":
+                b = b"\0" * (-addr % st[1])
+            elif k == "blkb":
+                b = b"\0" * st[1]
+            elif k == "blkw":
+                if addr % 2:
+                    return "undecided"          # '.blkw' at an odd address: the property names word DATA; not decided here
+                b = b"\0" * (2 * st[1])
+            elif k == "ascii":
+                b = st[1].encode("ascii")
+            elif k == "asciz":
+                b = st[1].encode("ascii") + b"\0"
+            addr += len(b)
+            out += b
+    return out + b"\xff"
+
+
+def _rac_text(stmts, base_first, copies):
+    lines = []
+    for st in stmts:
+        k = st[0]
+        if k in ("byte", "word", "dword"):
+            lines.append(".%s %s" % (k, ", ".join(("-%d." % -v) if v < 0 else "%d." % v for v in st[1])))
+        elif k in ("even", "odd"):
+            lines.append("." + k)
+        elif k in ("align", "blkb", "blkw"):
+            lines.append(".%s %d." % (k, st[1]))
+        else:
+            lines.append('.%s "%s"' % (k, st[1]))
+    body = "\n".join(lines) + "\n"
+    if copies is not None:
+        body = ".repeat %d. {\n%s}\n" % (copies, body)
+    return ("" if base_first is None else ". = %o\n" % base_first) + body + ".byte 377\n"
+
+
+def _rac_programs(n, seed):
+    import random
+    rnd = random.Random(seed)
+    progs = []
+    for i in range(n):
+        stmts = []
+        for _ in range(rnd.randrange(1, 5)):
+            k = rnd.choice(["byte", "byte", "word", "dword", "even", "odd", "align", "blkb", "blkw", "ascii", "asciz"])
+            if k == "byte":
+                stmts.append((k, [rnd.choice([0, 1, 255, -255, -1, 128, rnd.randrange(-255, 256)]) for _ in range(rnd.randrange(1, 4))]))
+            elif k == "word":
+                stmts.append((k, [rnd.choice([0, 65535, -65535, 32768, rnd.randrange(-65535, 65536)]) for _ in range(rnd.randrange(1, 3))]))
+            elif k == "dword":
+                stmts.append((k, [rnd.choice([2 ** 32 - 1, -(2 ** 32 - 1), 65536, rnd.randrange(-2 ** 32 + 1, 2 ** 32)])]))
+            elif k == "align":
+                stmts.append((k, rnd.randrange(1, 65)))
+            elif k in ("blkb", "blkw"):
+                stmts.append((k, rnd.randrange(0, 6)))
+            elif k in ("ascii", "asciz"):
+                stmts.append((k, "".join(rnd.choice("abXY z09") for _ in range(rnd.randrange(0, 4)))))
+            else:
+                stmts.append((k,))
+        base_first = rnd.choice([None, 0o1000, 0o1001, 0o2004, 0o177000])
+        copies = rnd.choice([None, None, 1, 2, 3, 5])
+        progs.append((stmts, base_first, copies))
+    # fixed cases: odd-sized bodies repeated, at a base known before the '.repeat' and at the default base
+    for base_first in (None, 0o1000, 0o1001):
+        for copies in (2, 3):
+            progs.append(([("word", [2]), ("byte", [1])], base_first, copies))
+            progs.append(([("byte", [1]), ("align", 4), ("byte", [2])], base_first, copies))
+            progs.append(([("byte", [1]), ("even",), ("byte", [2, 3])], base_first, copies))
+            progs.append(([("odd",), ("byte", [7])], base_first, copies))
+            progs.append(([("asciz", "ab"), ("even",), ("word", [5])], base_first, copies))
+    return progs
+
+
+def unit_rac(eng=None, tier="quick", tree=None):
+    import json
+    progs = _rac_programs(150 if tier == "quick" else 1500, int(os.environ.get("VERIF_SEED", "0") or 0))
+    jobs, exps = [], []
+    for stmts, base_first, copies in progs:
+        jobs.append({"kind": "asm", "sources": [_rac_text(stmts, base_first, copies)]})
+        exps.append(_rac_ref(stmts, 0o1000 if base_first is None else base_first, 1 if copies is None else copies))
+    res = driver.native(jobs, tree or driver.tree_root())
+    bad = []
+    for j, e, r in zip(jobs, exps, res):
+        if e == "undecided":
+            continue
+        if r["status"] == "crash":
+            bad.append(dict(source=j["sources"][0], expected="bytes or a reported error", observed=[r["status"], r.get("exc")]))
+        elif e is None:
+            if r["status"] != "fail" or "odd-address" not in [d[1] for d in r["diags"]]:
+                bad.append(dict(source=j["sources"][0], expected="refused: word data at an odd address", observed=[r["status"], r.get("code_hex")]))
+        elif r["status"] != "ok" or r["code_hex"] != e.hex():
+            bad.append(dict(source=j["sources"][0], expected=e.hex(), observed=[r["status"], r.get("code_hex"), [d[1] for d in r["diags"]][:2]]))
+    ob = dict(label="random-data-directive-sequences(top level and '.repeat' bodies, every address parity)==reference-emitter-or-refused", kind="rac", status="proved" if not bad else "failed", secs=0.0,
+              path=[], witness=None, detail=json.dumps(bad[:3])[:1500], events=[], smt2=None, backend="cpython-native", unit="data-rac", func="Compiler (run-time check)", cases=len(jobs), cfg=dict(kind="rac"))
+    return dict(unit="data-rac", func="Compiler (run-time check)", paths=len(jobs), obligations=[ob], wall=0.0, bad=bad)
+
+
+def unit_repeat(eng):
+    """address-dependent directives (.even/.odd/.align, word data) inside a '.repeat' body depend on each copy being compiled at its own address:
+    the loop contract of metacommands.repeat (contracts/meta_c.py, shared with C16 and C02)"""
+    from contracts import meta_c
+    return meta_c.unit_repeat(eng)
+
+
 def units(tier):
-    us = []
+    us = [("rac", "unit_rac", dict(tier=tier)), ("repeat", "unit_repeat", {})]
     for bit in [None, 3, 8, 16, 32, "sym"]:
         for uns in [False, True]:
             for d in [None, 0]:
@@ -555,6 +679,9 @@ def replay(o, tree):
     w = o.get("witness") or {}
     if o.get("kind") == "bounded":
         return None
+    if cfg.get("kind") == "rac" or o.get("unit", "").startswith(".repeat"):
+        r = unit_rac(None, "quick", tree)
+        return dict(jobs=None, experiment="C06 run-time corpus (contracts/c06.py unit_rac)", failing=r["bad"][:2], reproduced=bool(r["bad"]))
     if cfg.get("kind") == "anglechar":
         return tokens_c.replay_anglechar(o, tree)
     if cfg.get("kind") == "get_as_int":
